@@ -38,6 +38,7 @@ structure Mon where
   pauseEvents : Nat := 0
   stale : Bool := false            -- a cost changed / an audit reset happened: demand monitors stop
   auditFail : Bool := false
+  auditFailHealthy : Bool := false   -- an audit-fail in a run the audit had no reason to touch: the figure is checked on
   lastGiveMe : Option Nat := none
   lastAudit : Option Nat := none
   startOk : Nat := 0
@@ -177,7 +178,8 @@ def monitorHist (sc : HScn) (entries : List String) : List (String × String) :=
                               else if rejected then "audit-fail-in-healthy-run:after-rejected-enqueue"
                               else "audit-fail-in-healthy-run")
           let inflightNow := m.calls.any fun c => c.res.isNone
-          m := { m with auditFail := true, auditInFlight := m.auditInFlight || (healthy && !m.stale && inflightNow) }
+          m := { m with auditFail := true, auditInFlight := m.auditInFlight || (healthy && !m.stale && inflightNow),
+                        auditFailHealthy := m.auditFailHealthy || (healthy && !m.stale && !inflightNow) }
       else if a2 == "flush-start" then
         match m.pauseAt with
         | some p => if t > p && t < p + sc.c.pause then m := m.add "C13" "cycle-during-pause"
@@ -187,10 +189,6 @@ def monitorHist (sc : HScn) (entries : List String) : List (String × String) :=
       -- f = [t, cbstart, b, w, objs, atts]
       let objs := objsOf (f.getD 4 "")
       let atts := objsOf (f.getD 5 "")
-      -- C14: Attempt() never runs ahead of the deliveries (each delivery increments it by exactly one)
-      let delivered (o : Nat) : Nat := (m.batches.toList.map (fun b => (b.objs.filter (· == o)).length)).sum
-      if (objs.zip atts).any (fun (o, a) => a > delivered o || a == 0) then
-        m := m.add "C14" "attempt-count-differs-from-deliveries"
       -- (without batch events the callback itself is the evidence that the batch was raised, at this very instant)
       if !sc.emitBatch then
         let bidx := m.batches.size
@@ -201,6 +199,14 @@ def monitorHist (sc : HScn) (entries : List String) : List (String × String) :=
           | some i => calls := calls.modify i fun c => { c with delivered := some bidx }
           | none => m := m.add "C01" "delivered-without-a-matching-accepted-enqueue"
         m := { m with calls := calls, batches := m.batches.push { idx := bidx, objs := objs, raisedAt := t } }
+      -- C14: Attempt() never runs ahead of the deliveries (each delivery increments it by exactly one)
+      let delivered (o : Nat) : Nat := (m.batches.toList.map (fun b => (b.objs.filter (· == o)).length)).sum
+      -- (without batch events another batch holding the same object may have been raised at this instant and not
+      -- have reported yet: allow for the accepted occurrences that are not accounted for)
+      let slack (o : Nat) : Nat := if sc.emitBatch then 0 else
+        (m.calls.filter fun c => c.obj == o && c.delivered.isNone && (c.res == some "ok" || c.res.isNone)).size
+      if (objs.zip atts).any (fun (o, a) => a > delivered o + slack o || a == 0) then
+        m := m.add "C14" "attempt-count-differs-from-deliveries"
       match m.batches.findIdx? (fun b => b.harnessB.isNone && b.objs == objs) with
       | some i =>
         m := { m with batches := m.batches.modify i fun b => { b with harnessB := some n2, w := some n3 } }
@@ -268,7 +274,7 @@ def monitorHist (sc : HScn) (entries : List String) : List (String × String) :=
           if inprog > sc.c.mcb then m := m.add "C10" "more-batches-in-progress-than-limit"
           if infl != inprog then m := m.add "C10" "inflight-differs-from-batches-in-progress"
         -- C03 / C11: demand = cost of everything accepted (or blocked / parked inside Enqueue) whose batch has not finished
-        if !m.stale && (!m.auditFail || m.auditInFlight) then
+        if !m.stale && (!m.auditFail || m.auditInFlight || m.auditFailHealthy) then
           let outstanding := (m.calls.filter fun c =>
             let counted := c.res == some "ok" || (c.res.isNone)
             let fin := match c.delivered with
